@@ -102,10 +102,7 @@ func cmdVerify(args []string) {
 				if *verbose || o.Status != "proved" {
 					fmt.Printf("   %-8s %-10s %s  [%s %dms] %s %s\n", mark, o.Class, o.Name, o.Solver, o.TimeMS, o.Pos, o.Detail)
 				}
-				if *dump != "" && (strings.HasSuffix(o.Name, *dump) || (!strings.HasPrefix(*dump, "=") && strings.Contains(o.Name, *dump))) {
-					if strings.HasSuffix(o.Name, *dump) {
-						os.WriteFile("/tmp/dump_exact.smt2", []byte(o.SMT()), 0o644)
-					}
+				if pat := strings.TrimPrefix(*dump, "="); *dump != "" && ((strings.HasPrefix(*dump, "=") && strings.HasSuffix(o.Name, pat)) || (!strings.HasPrefix(*dump, "=") && strings.Contains(o.Name, pat))) {
 					os.WriteFile("/tmp/dump.smt2", []byte(o.SMT()), 0o644)
 					fmt.Printf("   dumped to /tmp/dump.smt2\n")
 					if o.Model != "" {
